@@ -43,7 +43,7 @@ std::uint64_t Now() { return yaclib::fault::Scheduler::GetScheduler()->GetTimeNs
 std::string At() { return " @" + std::to_string(Now()); }
 
 struct Op {
-  std::string k;  // L T U F FU | LS TS US FS | W WF WP WPF SF N1 NA | S | J E | P G C GQ GL
+  std::string k;  // L T U F FU | LS TS US FS | W WF WP WPF SF N1 NA | S | J E | P G PQ C GQ GL
   long a = 0;
 };
 
@@ -59,7 +59,7 @@ struct Scenario {
         h += (j ? "," : "") + progs[i][j].k;
         if (progs[i][j].a != 0 || progs[i][j].k == "F" || progs[i][j].k == "FS" || progs[i][j].k == "FU" ||
             progs[i][j].k == "S" || progs[i][j].k == "WF" || progs[i][j].k == "WPF" || progs[i][j].k == "J" ||
-            progs[i][j].k == "P")
+            progs[i][j].k == "P" || progs[i][j].k == "PQ")
           h += std::to_string(progs[i][j].a);
       }
     }
@@ -97,6 +97,7 @@ struct Mon {
   bool got_notify[kMaxF]{};
   bool fn_done[kMaxF]{};
   bool recursive = false;
+  std::string howX[kMaxF];  // which call the exclusive hold came from
   std::vector<std::pair<std::string, std::string>> bad;  // (kind, message), first of each kind
   void Bad(const std::string& kind, const std::string& msg) {
     for (auto& b : bad)
@@ -106,7 +107,7 @@ struct Mon {
   std::string Holders() const {
     std::string s;
     for (int j = 0; j < kMaxF; ++j) {
-      if (holdX[j]) s += " f" + std::to_string(j) + ":X" + (holdX[j] > 1 ? std::to_string(holdX[j]) : "");
+      if (holdX[j]) s += " f" + std::to_string(j) + ":X" + (holdX[j] > 1 ? std::to_string(holdX[j]) : "") + "(" + howX[j] + ")";
       if (holdS[j]) s += " f" + std::to_string(j) + ":S" + (holdS[j] > 1 ? std::to_string(holdS[j]) : "");
     }
     return s.empty() ? " none" : s;
@@ -124,6 +125,7 @@ struct Mon {
                     " by " + how + " while held by" + Holders());
     }
     (shared ? holdS : holdX)[i]++;
+    if (!shared) howX[i] = how;
   }
 };
 
@@ -161,14 +163,18 @@ void InstallLocalHooks(vx::Ctx* ctx) {
   };
   h.rand = [](void* c, unsigned long long max) -> long long {
     auto* ctx = static_cast<vx::Ctx*>(c);
-    int r = ctx->Choose('x', static_cast<int>(max));
     if (gJitterPending) {  // SleepPreemptive, right after the park_timed report
       gJitterPending = false;
+      int r = ctx->Choose('x', static_cast<int>(max));
       if (!ctx->trace.empty()) ctx->trace.back() += " j=" + std::to_string(r);
-    } else {  // SharedMutex::unlock
-      vx::Ev("coin " + std::to_string(r));
+      return r;
     }
-    return r;
+    if (max == 2) {  // SharedMutex::unlock
+      int r = ctx->Choose('x', 2);
+      vx::Ev("coin " + std::to_string(r));
+      return r;
+    }
+    return 0;  // the built-in pick of PollRandomElementFromList on an empty list (D12): about to crash
   };
   h.on_sync = [](void* c, const void* obj, int op, int res) {
     auto* ctx = static_cast<vx::Ctx*>(c);
@@ -345,6 +351,11 @@ void ExecCommon(Env& env, int i, const Op& op) {
                        " but this fiber last stored " + std::to_string(env.tls_expect[i]));
     }
     Ret("tls_get " + std::to_string(v));
+  } else if (k == "PQ") {
+    Call("tls_setq " + std::to_string(op.a));
+    gTlsQ = &gSlots[op.a];
+    env.tlsq_expect[i] = static_cast<int>(op.a);
+    Ret("tls_setq");
   } else if (k == "C") {
     // q = p (pointer copy between two thread-local pointers): must change this fiber's q only
     Call("tls_copy");
@@ -459,7 +470,7 @@ void RunWith(const Scenario& sc, M* m, Env& env) {
       int fi = static_cast<int>(i);
       for (auto& op : sc.progs[i]) {
         const std::string& k = op.k;
-        if (k == "S" || k == "J" || k == "E" || k == "P" || k == "G" || k == "C" || k == "GQ" || k == "GL") {
+        if (k == "S" || k == "J" || k == "E" || k == "P" || k == "G" || k == "C" || k == "GQ" || k == "GL" || k == "PQ") {
           ExecCommon(env, fi, op);
         } else if (k == "W" || k == "WF" || k == "WP" || k == "WPF" || k == "SF" || k == "N1" || k == "NA") {
           ExecCvOp(env, fi, op);
@@ -596,12 +607,14 @@ std::vector<Scenario> Scenarios(std::uint64_t seed, int random_count) {
   add("shared", {"LS,US", "L,U", "LS,US"});     // D6: reader barges between unlock_shared and the writer's wake-up
   add("shared", {"T,U", "TS,US", "L,U"});
   add("shared", {"LS,US", "TS,US", "T,U"});
+  add("shared", {"L,U", "LS,US", "L,U"});  // D6: a writer barges between unlock and the reader's wake-up
   // ---- SharedTimedMutex (D5)
   add("sharedt", {"LS,US", "F50,U", "TS,US"});
   add("sharedt", {"L,U", "FS50,US", "F50,U"});
   add("sharedt", {"F50,U", "LS,US", "L,U"});
   add("sharedt", {"L,S30,U", "FS10,US", "FS60,US"});
   add("sharedt", {"L,U", "FS50,US", "FS50,US", "L,U"});
+  add("sharedt", {"L,S30,U", "F10,U"});
   // ---- ConditionVariable + Mutex
   add("cv", {"L,WP,U", "L,SF,N1,U"});
   add("cv", {"L,WP,U", "L,WP,U", "L,SF,NA,U"});
@@ -621,6 +634,8 @@ std::vector<Scenario> Scenarios(std::uint64_t seed, int random_count) {
   add("tls", {"P1,C,GQ,E,GQ", "GQ,P2,E,GQ"});
   add("tls", {"P1,G", "P2,C,GQ,G", "G,GQ"});
   add("tls", {"GL,P1,GL", "GL,G"});
+  add("tls", {"PQ3,GQ,P1,C,GQ", "GQ,PQ2,GQ"});
+  add("tls", {"C,GQ,P1,C,C,GQ", "GQ"});  // `q = p` with equal values is a no-op  // D14, second half: a fiber that assigned q does not see its own `q = p`
   // ---- random balanced programs
   vx::SplitMix rng{seed * 0x9e3779b97f4a7c15ULL + 18};
   const char* prims[] = {"mutex", "timed", "rec", "rect", "shared", "sharedt", "cv"};
@@ -632,14 +647,18 @@ std::vector<Scenario> Scenarios(std::uint64_t seed, int random_count) {
     bool shared = sc.prim == "shared" || sc.prim == "sharedt";
     bool rec = sc.prim == "rec" || sc.prim == "rect";
     bool cv = sc.prim == "cv";
-    bool has_setter = false;
     for (int f = 0; f < nf; ++f) {
       std::vector<Op> ops;
+      if (cv && f == nf - 1) {
+        // the last fiber sets the flag and broadcasts under the lock, so that every predicate wait terminates
+        sc.progs.push_back({{"L", 0}, {"SF", 0}, {"NA", 0}, {"U", 0}});
+        continue;
+      }
       int sections = 1 + static_cast<int>(rng.below(nf == 2 ? 2 : 1));
       for (int s = 0; s < sections; ++s) {
         long d = static_cast<long>(10 * rng.below(6));
         bool sh = shared && rng.below(2) == 0;
-        std::uint64_t how = rng.below(timed ? 3 : 2);
+        std::uint64_t how = cv ? 0 : rng.below(timed ? 3 : 2);
         std::string acq = how == 0 ? "L" : (how == 1 ? "T" : "F");
         if (sh) acq += "S";
         ops.push_back({acq, acq[0] == 'F' ? d : 0});
@@ -647,15 +666,16 @@ std::vector<Scenario> Scenarios(std::uint64_t seed, int random_count) {
           ops.push_back({"T", 0});
           ops.push_back({"U", 0});
         }
-        if (cv && acq == "L") {
-          // waiter or setter: the last fiber is always a setter so that predicate waits terminate
-          bool setter = f == nf - 1 || rng.below(3) == 0;
-          if (setter) {
-            ops.push_back({"SF", 0});
-            ops.push_back({rng.below(2) ? "N1" : "NA", 0});
-            has_setter = true;
+        if (cv) {
+          std::uint64_t what = rng.below(4);
+          if (what == 0) {
+            ops.push_back({"N1", 0});
+          } else if (what == 1) {
+            ops.push_back({"WPF", static_cast<long>(10 * (1 + rng.below(4)))});
+          } else if (what == 2) {
+            ops.push_back({"WF", static_cast<long>(10 * rng.below(4))});
           } else {
-            ops.push_back({rng.below(2) ? "WPF" : "WP", static_cast<long>(10 * (1 + rng.below(4)))});
+            ops.push_back({"WP", 0});
           }
         } else if (rng.below(4) == 0) {
           ops.push_back({"S", static_cast<long>(10 * rng.below(4))});
@@ -663,10 +683,6 @@ std::vector<Scenario> Scenarios(std::uint64_t seed, int random_count) {
         ops.push_back({sh ? "US" : "U", 0});
       }
       sc.progs.push_back(ops);
-    }
-    if (cv && has_setter) {
-      // a single N1 may be consumed by one of several waiters: finish with a broadcast
-      sc.progs.back().push_back({"NA", 0});
     }
     out.push_back(sc);
   }
